@@ -74,16 +74,20 @@ ANON_BY_CLASSNAME = {'XSDComplexTypeScorePartwise': 'score-partwise@', 'XSDCompl
                      'XSDComplexTypeMeasure': 'measure@', 'XSDComplexTypeDirective': 'directive@'}
 
 
+def _cap(name):
+    return ''.join(p[0].upper() + p[1:] for p in name.split('-') if p)
+
+
+TYPE_OF_CLASSNAME = dict(ANON_BY_CLASSNAME)
+for _t in ref.ctypes:
+    TYPE_OF_CLASSNAME['XSDComplexType' + _cap(_t)] = _t
+for _t in list(ref.stypes) + list(ref.xml_stypes) + list(ref.BUILTIN):
+    TYPE_OF_CLASSNAME.setdefault('XSDSimpleType' + _cap(_t.split(':')[-1]), _t)
+
+
 def xsd_type_name(cls):
-    """name of the XSD type a class is bound to, in the reference model's naming"""
-    n = cls.TYPE.__name__
-    if n in ANON_BY_CLASSNAME:
-        return ANON_BY_CLASSNAME[n]
-    t = cls.TYPE.get_xsd_tree()
-    name = t.name
-    if cls.TYPE.__module__.endswith('xsdsimpletype') and name not in ref.stypes:
-        return 'xs:' + name
-    return name
+    """name of the XSD type a class is bound to, in the reference model's naming (by the documented naming rule)"""
+    return TYPE_OF_CLASSNAME[cls.TYPE.__name__]
 
 
 def child_cls(name):
